@@ -265,11 +265,12 @@ def as_completed_model(chk, rnd):
   task t answers when the harness opens its gate."""
   import time as real_time
   from ml_metrics._src.chainables import lazy_fns
-  sizes = [(3, 2, 1), (2, 3, 1), (4, 3, 0)] if chk.tier == 'quick' else [(3, 2, 2), (2, 3, 2), (4, 3, 1), (3, 3, 1), (4, 2, 2)]
-  invs = ['NoCrash', 'AtMostOnce', 'ExactlyOnceAtEnd', 'RunningAreHeld', 'AllReleased']
+  # (workers, tasks, time-outs, application errors)
+  sizes = [(3, 2, 1, 0), (2, 3, 1, 1), (4, 3, 0, 0)] if chk.tier == 'quick' else [(3, 2, 2, 1), (2, 3, 2, 1), (4, 3, 1, 1), (3, 3, 1, 1), (4, 2, 2, 0)]
+  invs = ['NoCrash', 'AtMostOnce', 'ExactlyOnceAtEnd', 'ErrorSurfaces', 'RunningAreHeld', 'AllReleased']
   hs = []
-  for nw, nt, nto in sizes:
-    consts = dict(Workers={f'w{i + 1}' for i in range(nw)}, NTasks=nt, MaxTimeouts=nto, Clamp=True)
+  for nw, nt, nto, nerr in sizes:
+    consts = dict(Workers={f'w{i + 1}' for i in range(nw)}, NTasks=nt, MaxTimeouts=nto, Clamp=True, MaxErrors=nerr, ReleaseOnError=True)
     mc = tlc.run('dist', 'AsCompleted', tlc.cfg_text(spec='Fair', constants=consts, invariants=invs, properties=['Terminates'], view='View',
                                                      deadlock=False), coverage=True, timeout=1800)
     chk.add_tlc(mc, f'AsCompleted/{nw} workers {nt} tasks')
@@ -282,8 +283,13 @@ def as_completed_model(chk, rnd):
     if not gen.ok:
       chk.machinery_failure(f'AsCompleted export failed: {gen.error_kind} {gen.error_name}')
     hs += gen.histories
-  neg = tlc.run('dist', 'AsCompleted', tlc.cfg_text(constants=dict(Workers={'w1', 'w2', 'w3'}, NTasks=2, MaxTimeouts=0, Clamp=False),
+  neg = tlc.run('dist', 'AsCompleted', tlc.cfg_text(constants=dict(Workers={'w1', 'w2', 'w3'}, NTasks=2, MaxTimeouts=0, Clamp=False, MaxErrors=0, ReleaseOnError=True),
                                                     invariants=['NoCrash'], view='View', deadlock=False), timeout=600)
+  neg2 = tlc.run('dist', 'AsCompleted', tlc.cfg_text(constants=dict(Workers={'w1', 'w2'}, NTasks=2, MaxTimeouts=0, Clamp=True, MaxErrors=1, ReleaseOnError=False),
+                                                     invariants=['AllReleased'], view='View', deadlock=False), timeout=600)
+  chk.coverage['error_path_without_release_rejected_by_tlc'] = (neg2.error_name == 'AllReleased')
+  if neg2.ok:
+    chk.machinery_failure('AsCompleted.tla accepts an error path that keeps the workers acquired: AllReleased is vacuous there')
   chk.coverage['pinned_reservation_rule_rejected_by_tlc'] = (neg.error_name == 'NoCrash')
   if neg.ok:
     chk.machinery_failure('AsCompleted.tla accepts the pinned reservation rule: NoCrash is vacuous')
@@ -326,6 +332,7 @@ def as_completed_model(chk, rnd):
       th = threading.Thread(target=lambda: box.setdefault('v', dist.run_with_deadline(run, 20)), daemon=True)
       th.start()
       attempt = {}
+      injected = []          # failing tasks whose error was actually injected (the schedule was followed that far)
       followed = True
       for e in h['events']:
         t = e['t']
@@ -338,9 +345,15 @@ def as_completed_model(chk, rnd):
           followed = exhausted.wait(1.5)
         else:
           k = attempt.get(t, 1)
-          lib.OUTCOMES[(t, k)] = 'timeout' if e['again'] else 'ok'
+          lib.OUTCOMES[(t, k)] = 'error' if e['ev'] == 'fail' else 'timeout' if e['again'] else 'ok'
           lib.gate(t, k).set()
-          if not e['again']:
+          if e['ev'] == 'fail':
+            injected.append(t)
+            t0 = real_time.time()
+            while 'v' not in box and real_time.time() - t0 < 1.5:
+              real_time.sleep(0.001)
+            followed = 'v' in box
+          elif not e['again']:
             t0 = real_time.time()
             while 100 + t not in got and real_time.time() - t0 < 1.5 and 'v' not in box:
               real_time.sleep(0.001)
@@ -360,12 +373,23 @@ def as_completed_model(chk, rnd):
       status, val = box.get('v', ('hung', None))
       acquired = [w.address for w in c.pool.acquired_workers]
     chk.replayed()
-    sched_txt = ' '.join(('S' if e['ev'] == 'submit' else 'X' if e['ev'] == 'exhausted' else ('T' if e['again'] else 'F')) + (str(e['t']) if e['t'] else '')
+    sched_txt = ' '.join(('S' if e['ev'] == 'submit' else 'X' if e['ev'] == 'exhausted' else 'E' if e['ev'] == 'fail' else ('T' if e['again'] else 'F')) + (str(e['t']) if e['t'] else '')
                          for e in h['events'])
+    failing = list(injected)
     ctx = dict(kind='dist', scenario=f'as_completed model schedule {nw} workers {nt} tasks: {sched_txt}', history=h)
     shape = 'more-workers-than-tasks' if nw > nt else 'tasks>=workers'
     if status == 'hung':
       chk.violation(f'as_completed:model:hung:{shape}', f'[{nw} workers, {nt} tasks, {sched_txt}] no end; results so far {sorted(got)}', ctx)
+    elif failing:
+      # a non-retriable error: it must reach the caller, no result may be delivered twice, every worker is released
+      if status != 'raised' or 'application error' not in repr(val):
+        chk.violation(f'as_completed:model:error-not-surfaced:{shape}',
+                      f'[{nw} workers, {nt} tasks, schedule {sched_txt}] task {failing} raises a non-retriable error; as_completed ended with {status} {val!r}, results {sorted(got)}', ctx)
+      elif len(set(got)) != len(got):
+        chk.violation(f'as_completed:model:results:{shape}', f'[{nw} workers, {nt} tasks, {sched_txt}] results {sorted(got)}', ctx)
+      elif acquired:
+        chk.violation(f'as_completed:model:workers-left-acquired:after-error:{shape}',
+                      f'[{nw} workers, {nt} tasks, schedule {sched_txt}] the error surfaced but the pool still holds {acquired}', ctx)
     elif status == 'raised':
       chk.violation(f'as_completed:model:died:{type(val).__name__}:{shape}',
                     f'[{nw} workers, {nt} tasks, schedule {sched_txt}] as_completed raised {val!r}; the specification ends with every result delivered once', ctx)
